@@ -364,8 +364,9 @@ func generalizeTy(ctx *Ctx, t cty.Type, top bool) cty.Type {
 		return cty.Tuple(n)
 	case t.IsObjectType():
 		atys := map[string]cty.Type{}
-		for k, v := range t.AttributeTypes() {
-			atys[k] = generalizeTy(ctx, v, true)
+		src := t.AttributeTypes()
+		for _, k := range sortedKeys(src) { // sorted: reproducible order of the random draws
+			atys[k] = generalizeTy(ctx, src[k], true)
 		}
 		return cty.Object(atys)
 	}
